@@ -1,15 +1,517 @@
 //go:build verif
 
+// Driver for C17: the chunked part transfer between nodes.
+//
+//	rec.*  real pub.streamPartsAsChunks (sender chunking) -> scripted delivery with faults ->
+//	       real sub.(*server).SyncPart (receiver session machine) with a recording handler.
+//	msr.*  same with the real measure ChunkedSyncHandler on a temp shard (see real.go).
+//	e2e.*  real SyncStreamingParts <-> real SyncPart over an in-process gRPC pipe (see e2e.go).
+//
+// Injected with `go build -tags verif -overlay`; not part of /repo.
 package main
 
 import (
+	"context"
 	"fmt"
+	"hash/crc32"
+	"io"
+	"os"
+	"sort"
+	"strconv"
+	"strings"
 
-	_ "github.com/apache/skywalking-banyandb/banyand/measure"
-	_ "github.com/apache/skywalking-banyandb/banyand/queue/pub"
-	_ "github.com/apache/skywalking-banyandb/banyand/queue/sub"
-	_ "github.com/apache/skywalking-banyandb/banyand/stream"
-	_ "github.com/apache/skywalking-banyandb/banyand/trace"
+	"google.golang.org/grpc"
+	"google.golang.org/protobuf/proto"
+
+	"github.com/apache/skywalking-banyandb/api/data"
+	clusterv1 "github.com/apache/skywalking-banyandb/api/proto/banyandb/cluster/v1"
+	"github.com/apache/skywalking-banyandb/banyand/internal/verifdrv/drv"
+	"github.com/apache/skywalking-banyandb/banyand/queue"
+	"github.com/apache/skywalking-banyandb/banyand/queue/pub"
+	"github.com/apache/skywalking-banyandb/banyand/queue/sub"
+	"github.com/apache/skywalking-banyandb/pkg/bus"
+	"github.com/apache/skywalking-banyandb/pkg/logger"
 )
 
-func main() { fmt.Println("skeleton") }
+// ---------------------------------------------------------------------------------------------
+// deterministic content and readers
+
+// genContent is the byte content of a file with the given seed (same LCG in checks/C17.py and the Lean driver).
+func genContent(seed uint64, size int) []byte {
+	x := (seed*2654435761 + 12345) % 2147483648
+	out := make([]byte, size)
+	for i := range out {
+		x = (x*1103515245 + 12345) % 2147483648
+		out[i] = byte((x >> 16) & 0xff)
+	}
+	return out
+}
+
+// policyReader is an fs.SeqReader over a byte slice with a configurable (legal) io.Reader behaviour:
+// at most k bytes per call (k=0: unlimited); io.EOF either together with a short final read (eager, like
+// pkg/bytes.Buffer) or only on the next call (like bufio/os.File).
+type policyReader struct {
+	data  []byte
+	off   int
+	k     int
+	eager bool
+}
+
+func (r *policyReader) Read(p []byte) (int, error) {
+	rem := len(r.data) - r.off
+	n := len(p)
+	if rem < n {
+		n = rem
+	}
+	if r.k > 0 && r.k < n {
+		n = r.k
+	}
+	copy(p, r.data[r.off:r.off+n])
+	r.off += n
+	if n == rem {
+		if r.eager && n < len(p) {
+			return n, io.EOF
+		}
+		if n == 0 {
+			return 0, io.EOF
+		}
+	}
+	return n, nil
+}
+func (r *policyReader) Path() string { return "" }
+func (r *policyReader) Close() error { return nil }
+
+// ---------------------------------------------------------------------------------------------
+// layout
+
+type fileSpec struct {
+	name string
+	size int
+	seed uint64
+}
+
+type partSpec struct {
+	id    uint64
+	ptype string
+	files []fileSpec
+}
+
+// parseLayout: parts joined by '/', each "id.ptype:name=size=seed,name=size=seed" (files may be absent).
+func parseLayout(s string) []partSpec {
+	var out []partSpec
+	if s == "-" {
+		return out
+	}
+	for _, ps := range strings.Split(s, "/") {
+		hd, rest, _ := strings.Cut(ps, ":")
+		ids, pt, _ := strings.Cut(hd, ".")
+		id, err := strconv.ParseUint(ids, 10, 64)
+		if err != nil {
+			panic("bad layout " + s)
+		}
+		p := partSpec{id: id, ptype: pt}
+		if rest != "" {
+			for _, fsr := range strings.Split(rest, ",") {
+				f := strings.Split(fsr, "=")
+				sz, _ := strconv.Atoi(f[1])
+				sd, _ := strconv.ParseUint(f[2], 10, 64)
+				p.files = append(p.files, fileSpec{name: f[0], size: sz, seed: sd})
+			}
+		}
+		out = append(out, p)
+	}
+	return out
+}
+
+const (
+	c17Group   = "verif-c17"
+	c17MinTS   = int64(1700000000000000000)
+	c17Session = "sync-c17"
+)
+
+func streamingParts(layout []partSpec, k int, eager bool, topic string) []queue.StreamingPartData {
+	var parts []queue.StreamingPartData
+	for _, p := range layout {
+		sp := queue.StreamingPartData{
+			ID: p.id, Group: c17Group, ShardID: 0, Topic: topic, PartType: p.ptype,
+			MinTimestamp: c17MinTS, MaxTimestamp: c17MinTS + 1000, TotalCount: 1, BlocksCount: 1,
+		}
+		for _, f := range p.files {
+			sp.Files = append(sp.Files, queue.FileInfo{Name: f.name, Reader: &policyReader{data: genContent(f.seed, f.size), k: k, eager: eager}})
+		}
+		parts = append(parts, sp)
+	}
+	return parts
+}
+
+// ---------------------------------------------------------------------------------------------
+// fake streams
+
+// refClient is the client side of the stream used to obtain the sender's reference chunking: every chunk is
+// acknowledged with CHUNK_RECEIVED, every request is recorded (deep copy: the sender reuses its buffer).
+type refClient struct {
+	grpc.ClientStream
+	reqs    []*clusterv1.SyncPartRequest
+	pending []*clusterv1.SyncPartResponse
+}
+
+func (c *refClient) Send(r *clusterv1.SyncPartRequest) error {
+	c.reqs = append(c.reqs, proto.Clone(r).(*clusterv1.SyncPartRequest))
+	if r.GetCompletion() == nil {
+		c.pending = append(c.pending, &clusterv1.SyncPartResponse{SessionId: r.SessionId, ChunkIndex: r.ChunkIndex, Status: clusterv1.SyncStatus_SYNC_STATUS_CHUNK_RECEIVED})
+	}
+	return nil
+}
+
+func (c *refClient) Recv() (*clusterv1.SyncPartResponse, error) {
+	if len(c.pending) == 0 {
+		return nil, io.EOF
+	}
+	r := c.pending[0]
+	c.pending = c.pending[1:]
+	return r, nil
+}
+func (c *refClient) CloseSend() error         { return nil }
+func (c *refClient) Context() context.Context { return context.Background() }
+
+// scriptServer is the server side of the stream: Recv yields the scripted requests then io.EOF.
+type scriptServer struct {
+	grpc.ServerStream
+	in    []*clusterv1.SyncPartRequest
+	resps []*clusterv1.SyncPartResponse
+}
+
+func (s *scriptServer) Recv() (*clusterv1.SyncPartRequest, error) {
+	if len(s.in) == 0 {
+		return nil, io.EOF
+	}
+	r := s.in[0]
+	s.in = s.in[1:]
+	return r, nil
+}
+
+func (s *scriptServer) Send(r *clusterv1.SyncPartResponse) error {
+	s.resps = append(s.resps, r)
+	return nil
+}
+func (s *scriptServer) Context() context.Context { return context.Background() }
+
+// ---------------------------------------------------------------------------------------------
+// recording handler
+
+type recFile struct {
+	ptype string
+	name  string
+	data  []byte
+}
+
+type recPart struct {
+	h        *recHandler
+	id       uint64
+	files    []*recFile
+	finished bool
+	closed   bool
+}
+
+type recHandler struct {
+	log       []string
+	installed []*recPart
+	open      []*recPart
+	discarded int
+}
+
+func (h *recHandler) CreatePartHandler(ctx *queue.ChunkedSyncPartContext) (queue.PartHandler, error) {
+	h.log = append(h.log, fmt.Sprintf("N%d.%s", ctx.ID, ctx.PartType))
+	p := &recPart{h: h, id: ctx.ID}
+	h.open = append(h.open, p)
+	return p, nil
+}
+
+func (h *recHandler) HandleFileChunk(ctx *queue.ChunkedSyncPartContext, chunk []byte) error {
+	if ctx.Handler == nil {
+		return fmt.Errorf("part handler is nil")
+	}
+	p := ctx.Handler.(*recPart)
+	h.log = append(h.log, fmt.Sprintf("W%s/%s:%d", ctx.PartType, ctx.FileName, len(chunk)))
+	if p.finished || p.closed {
+		h.log = append(h.log, "!write-after-end")
+	}
+	for _, f := range p.files {
+		if f.ptype == ctx.PartType && f.name == ctx.FileName {
+			f.data = append(f.data, chunk...)
+			return nil
+		}
+	}
+	p.files = append(p.files, &recFile{ptype: ctx.PartType, name: ctx.FileName, data: append([]byte(nil), chunk...)})
+	return nil
+}
+
+func (p *recPart) NewPartType(ctx *queue.ChunkedSyncPartContext) error {
+	p.h.log = append(p.h.log, "T"+ctx.PartType)
+	return nil
+}
+
+func (p *recPart) remove() {
+	for i, q := range p.h.open {
+		if q == p {
+			p.h.open = append(p.h.open[:i], p.h.open[i+1:]...)
+			return
+		}
+	}
+}
+
+// FinishSync installs the part (what tsTable.mustAddFilePart does in the engines).
+func (p *recPart) FinishSync() error {
+	p.h.log = append(p.h.log, "F")
+	if !p.finished && !p.closed {
+		p.finished = true
+		p.remove()
+		p.h.installed = append(p.h.installed, p)
+	}
+	return nil
+}
+
+// Close discards a part that was not finished (what MustRMAll(partPath) does in the engines).
+func (p *recPart) Close() error {
+	p.h.log = append(p.h.log, "X")
+	if !p.finished && !p.closed {
+		p.closed = true
+		p.remove()
+		p.h.discarded++
+	}
+	return nil
+}
+
+func digestPart(id uint64, files []*recFile) string {
+	var sb strings.Builder
+	fmt.Fprintf(&sb, "%d[", id)
+	for i, f := range files {
+		if i > 0 {
+			sb.WriteByte(' ')
+		}
+		fmt.Fprintf(&sb, "%s/%s:%d:%08x", f.ptype, f.name, len(f.data), crc32.ChecksumIEEE(f.data))
+	}
+	sb.WriteByte(']')
+	return sb.String()
+}
+
+func (h *recHandler) installedDigest() string {
+	if len(h.installed) == 0 {
+		return "-"
+	}
+	var out []string
+	for _, p := range h.installed {
+		out = append(out, digestPart(p.id, p.files))
+	}
+	return strings.Join(out, ";")
+}
+
+// ---------------------------------------------------------------------------------------------
+// reference chunking + scripted delivery
+
+func referenceChunks(parts []queue.StreamingPartData, chunkSize uint32, topic string) (chunks []*clusterv1.SyncPartRequest, completion *clusterv1.SyncPartRequest, err error) {
+	md := &clusterv1.SyncMetadata{Group: c17Group, ShardId: 0, Topic: topic, Timestamp: 1, TotalParts: uint32(len(parts))}
+	rc := &refClient{}
+	_, failed, _, serr := pub.VerifC17StreamPartsAsChunks(rc, c17Session, md, parts, chunkSize)
+	if serr != nil || len(failed) > 0 {
+		return nil, nil, fmt.Errorf("sender failed: %v %v", serr, failed)
+	}
+	for _, r := range rc.reqs {
+		if r.GetCompletion() != nil {
+			completion = r
+		} else {
+			chunks = append(chunks, r)
+		}
+	}
+	return chunks, completion, nil
+}
+
+func flipBit(b []byte, bit int) []byte {
+	out := append([]byte(nil), b...)
+	if len(out) == 0 {
+		return out
+	}
+	bit %= len(out) * 8
+	out[bit/8] ^= 1 << (uint(bit) % 8)
+	return out
+}
+
+// corruptChecksum flips the lowest bit of one character of the checksum string.
+func corruptChecksum(s string, pos int) string {
+	if s == "" {
+		return "1"
+	}
+	b := []byte(s)
+	pos %= len(b)
+	b[pos] ^= 1
+	return string(b)
+}
+
+// buildScript turns "0,1,2d17,2,C" into the delivered request sequence.
+//
+//	<i>       sender chunk i unchanged
+//	<i>d<b>   chunk i with data bit b (mod 8*len) flipped, checksum unchanged
+//	<i>c<p>   chunk i with checksum character p (mod len) altered, data unchanged
+//	<i>v      chunk i claiming an unsupported API version
+//	C         the sender's completion message
+func buildScript(script string, chunks []*clusterv1.SyncPartRequest, completion *clusterv1.SyncPartRequest) []*clusterv1.SyncPartRequest {
+	var out []*clusterv1.SyncPartRequest
+	if script == "-" || script == "" {
+		return out
+	}
+	for _, tok := range strings.Split(script, ",") {
+		if tok == "C" {
+			if completion != nil {
+				out = append(out, proto.Clone(completion).(*clusterv1.SyncPartRequest))
+			}
+			continue
+		}
+		j := 0
+		for j < len(tok) && tok[j] >= '0' && tok[j] <= '9' {
+			j++
+		}
+		i, err := strconv.Atoi(tok[:j])
+		if err != nil || i >= len(chunks) {
+			panic("bad script token " + tok)
+		}
+		r := proto.Clone(chunks[i]).(*clusterv1.SyncPartRequest)
+		if j < len(tok) {
+			arg := 0
+			if j+1 < len(tok) {
+				arg, _ = strconv.Atoi(tok[j+1:])
+			}
+			switch tok[j] {
+			case 'd':
+				r.ChunkData = flipBit(r.ChunkData, arg)
+			case 'c':
+				r.ChunkChecksum = corruptChecksum(r.ChunkChecksum, arg)
+			case 'v':
+				r.VersionInfo.ApiVersion = "0.0-verif"
+			default:
+				panic("bad script token " + tok)
+			}
+		}
+		out = append(out, r)
+	}
+	return out
+}
+
+func ackString(resps []*clusterv1.SyncPartResponse) string {
+	if len(resps) == 0 {
+		return "-"
+	}
+	var sb strings.Builder
+	for _, r := range resps {
+		sb.WriteString(strconv.Itoa(int(r.Status)))
+	}
+	return sb.String()
+}
+
+func resultString(resps []*clusterv1.SyncPartResponse) string {
+	for _, r := range resps {
+		if sr := r.GetSyncResult(); sr != nil {
+			return fmt.Sprintf("%s:%d:%d:%d", drv.B01(sr.Success), sr.TotalBytesReceived, sr.ChunksReceived, sr.PartsReceived)
+		}
+	}
+	return "-"
+}
+
+func atoi(s string) int {
+	v, err := strconv.Atoi(s)
+	if err != nil {
+		panic("bad int " + s)
+	}
+	return v
+}
+
+// rec.<kind> reorder maxBuf maxGap chunkSize k eager layout script
+func handleRec(f []string) string {
+	if len(f) != 9 {
+		return "bad-op"
+	}
+	reorder := f[1] == "1"
+	maxBuf, maxGap, chunkSize, k := atoi(f[2]), atoi(f[3]), atoi(f[4]), atoi(f[5])
+	eager := f[6] == "1"
+	layout := parseLayout(f[7])
+	topic := data.TopicMeasurePartSync.String()
+	chunks, completion, err := referenceChunks(streamingParts(layout, k, eager, topic), uint32(chunkSize), topic)
+	if err != nil {
+		return "SENDERR " + err.Error()
+	}
+	h := &recHandler{}
+	srv := sub.VerifC17NewServer(reorder, uint32(maxBuf), uint32(maxGap), map[bus.Topic]queue.ChunkedSyncHandler{data.TopicMeasurePartSync: h})
+	st := &scriptServer{in: buildScript(f[8], chunks, completion)}
+	ret := "ok"
+	if rerr := srv.SyncPart(st); rerr != nil {
+		ret = "err"
+	}
+	lg := "-"
+	if len(h.log) > 0 {
+		lg = strings.Join(h.log, ",")
+	}
+	return fmt.Sprintf("n=%d acks=%s ret=%s res=%s log=%s inst=%s leak=%d disc=%d", len(chunks), ackString(st.resps), ret,
+		resultString(st.resps), lg, h.installedDigest(), len(h.open), h.discarded)
+}
+
+// chunks.<kind> chunkSize k eager layout : the sender's reference chunking itself
+// (index, checksum, data crc, parts info), one token per chunk.
+func handleChunks(f []string) string {
+	if len(f) != 5 {
+		return "bad-op"
+	}
+	chunkSize, k := atoi(f[1]), atoi(f[2])
+	eager := f[3] == "1"
+	topic := data.TopicMeasurePartSync.String()
+	chunks, completion, err := referenceChunks(streamingParts(parseLayout(f[4]), k, eager, topic), uint32(chunkSize), topic)
+	if err != nil {
+		return "SENDERR " + err.Error()
+	}
+	var out []string
+	for _, c := range chunks {
+		var ps []string
+		for _, p := range c.PartsInfo {
+			var fsx []string
+			for _, fi := range p.Files {
+				fsx = append(fsx, fmt.Sprintf("%s@%d+%d", fi.Name, fi.Offset, fi.Size))
+			}
+			ps = append(ps, fmt.Sprintf("%d.%s(%s)", p.Id, p.PartType, strings.Join(fsx, ",")))
+		}
+		out = append(out, fmt.Sprintf("%d:%s:%d:%s:%s", c.ChunkIndex, c.ChunkChecksum, len(c.ChunkData), drv.B01(c.GetMetadata() != nil), strings.Join(ps, "|")))
+	}
+	comp := "-"
+	if completion != nil {
+		cc := completion.GetCompletion()
+		comp = fmt.Sprintf("%d:%d:%d", cc.TotalBytesSent, cc.TotalPartsSent, cc.TotalChunks)
+	}
+	if len(out) == 0 {
+		out = []string{"-"}
+	}
+	return fmt.Sprintf("n=%d comp=%s %s", len(chunks), comp, strings.Join(out, " "))
+}
+
+func handle(f []string) string {
+	if len(f) == 0 {
+		return "bad-op"
+	}
+	mode, _, _ := strings.Cut(f[0], ".")
+	switch mode {
+	case "rec":
+		return handleRec(f)
+	case "chunks":
+		return handleChunks(f)
+	case "msr", "str", "trc":
+		return handleReal(mode, f)
+	case "e2e":
+		return handleE2E(f)
+	}
+	return "bad-op"
+}
+
+var _ = sort.Strings
+
+func main() {
+	_ = logger.Init(logger.Logging{Env: "prod", Level: "fatal"})
+	defer cleanupScratch()
+	drv.Run(handle)
+	_ = os.Stdout.Sync()
+}
